@@ -22,6 +22,9 @@ type c10 struct{}
 func init() { Register(c10{}) }
 
 type c10Op struct {
+	// Late (ruin): the transport ends right before the server's ChangeCipherSpec instead of at once - in a
+	// full handshake the client has sent its Finished by then and may already have stored the new session
+	Late bool `json:"late,omitempty"`
 	Op     string   `json:"op"` // connect | restart | client-suites | server-suites | forged | ruin
 	Server int      `json:"server"`
 	Suites []uint16 `json:"suites,omitempty"`
@@ -40,7 +43,7 @@ type c10Params struct {
 func (c10) ID() string    { return "C10" }
 func (c10) Level() string { return "exploration" }
 func (c10) Rule() string {
-	return "each case is a history drawn from the seed over one client configuration (one session cache) and 1-3 real servers at distinct addresses (one cache each): connect (handshake + echo), server loses its cache (restart), client or server changes its enabled suites, a scripted client offers a forged or stale session id, a handshake that offered a session is ruined (transport cut / peer gone), servers and client move to another CA (cached sessions no longer verify; and back); with or without client certificates; client cache capacity 64, or 1-2 with a single server; both stacks. A reference model of the caches predicts for every connection whether it resumes. Oracle: DidResume on both sides equals the prediction and every honest connection succeeds; a resumed connection reports the original peer certificates on both sides (also to the VerifyConnection callbacks) and has fresh randoms and Finished values; new session ids are 32 bytes and unique in the history; after a ruined handshake the next ClientHello to that server carries no session id (wire). distinct = distinct histories; non-trivial = at least one resumption and one non-trivial event (restart, reconfiguration, forged id, ruin)"
+	return "each case is a history drawn from the seed over one client configuration (one session cache) and 1-3 real servers at distinct addresses (one cache each): connect (handshake + echo), server loses its cache (restart), client or server changes its enabled suites, a scripted client offers a forged or stale session id, a handshake is ruined (transport cut at once / peer gone, or - \"late\" - the server's ChangeCipherSpec and Finished never arrive), servers and client move to another CA (cached sessions no longer verify; and back); with or without client certificates; client cache capacity 64, or 1-2 with a single server; both stacks. A reference model of the caches predicts for every connection whether it resumes. Oracle: DidResume on both sides equals the prediction and every honest connection succeeds; a resumed connection reports the original peer certificates on both sides (also to the VerifyConnection callbacks) and has fresh randoms and Finished values; new session ids are 32 bytes and unique in the history; after a ruined handshake the next ClientHello to that server carries no session id (wire). distinct = distinct histories; non-trivial = at least one resumption and one non-trivial event (restart, reconfiguration, forged id, ruin)"
 }
 func (c10) Components() (real, stub []string) {
 	return []string{"tlcp/dtlcp client and servers (instrumented): loadSession, checkForResumption, session creation and cleanup, lruSessionCache"},
@@ -83,6 +86,7 @@ func drawC10(src *vs.Src) *c10Params {
 			op.Op = "forged"
 		case 10:
 			op.Op = "ruin"
+			op.Late = src.Bool(1, 2)
 		default:
 			// the servers move to certificates of the other CA and the client to that CA as its only root
 			// (caches stay): sessions recorded with the old certificates no longer pass the client's checks
@@ -146,6 +150,7 @@ func (c10) Run(c *Case, src *vs.Src) *Result {
 	}
 	allIDs := map[string]bool{}
 	mustNotOffer := map[int]bool{} // destination whose last handshake (offering a session) was ruined
+	neverOffer := map[string]string{} // session ids issued in handshakes that ended in a fatal error
 	nResumed, nEvents := 0, 0
 	certSet := 0
 	for n, op := range p.Ops {
@@ -250,9 +255,29 @@ func (c10) Run(c *Case, src *vs.Src) *Result {
 		if op.Op == "ruin" {
 			nEvents++
 			// the server side never answers properly: stream cut right away / datagram server absent
-			if pair.Pipe != nil {
+			if pair.Pipe != nil && op.Late {
+				// the stream ends right before the server's ChangeCipherSpec record
+				pair.Pipe.SetFilter(simnet.DirS2C, simnet.NewRecordMITM(simnet.DirS2C, []simnet.RFault{{Dir: simnet.DirS2C, Type: 20, N: 0, Kind: simnet.RCutAt}}))
+				SpawnHandshakeEcho(w, pair, EchoOpts{}, out, "")
+			} else if pair.Pipe != nil {
 				pair.Pipe.CutAfter(simnet.DirS2C, int64(7+src.Intn(40)))
 				SpawnHandshakeEcho(w, pair, EchoOpts{}, out, "")
+			} else if op.Late {
+				// datagram stack: the server is there, but its flights that begin with ChangeCipherSpec never
+				// arrive; the client gives up when its socket is closed
+				pair.Net.Namer = c19Datagram
+				var plan []simnet.DFault
+				for k := 1; k <= 12; k++ {
+					plan = append(plan, simnet.DFault{Dir: simnet.DirS2C, Name: fmt.Sprintf("F6#%d", k), Kind: simnet.FDrop})
+					plan = append(plan, simnet.DFault{Dir: simnet.DirS2C, Name: fmt.Sprintf("F4r#%d", k), Kind: simnet.FDrop})
+				}
+				pair.Net.SetPlan(plan)
+				SpawnHandshakeEcho(w, pair, EchoOpts{}, out, "")
+				w.Go("reaper", func() {
+					vs.Sleep(9 * time.Second)
+					pair.CP.Close()
+					pair.SP.Close()
+				})
 			} else {
 				w.Go("client", func() {
 					out.CErr = pair.C.Handshake()
@@ -270,6 +295,16 @@ func (c10) Run(c *Case, src *vs.Src) *Result {
 				r.Violate("ruin", sigp+" ruined-handshake-succeeded", "%s: harness could not ruin the handshake", tag)
 				return r
 			}
+			if op.Late && !(prev != nil && prev.set == certSet) {
+				// a full handshake (nothing was offered) that died after the client's Finished: the session id the
+				// server issued in it must never be offered (a session the client held before and did not offer
+				// is untouched)
+				_, issued, _, _ := c10Hellos(p.Stack == DTLCP, pair.WireUnits(true))
+				if len(issued) > 0 {
+					neverOffer[hex.EncodeToString(issued)] = tag
+				}
+				continue
+			}
 			if prev != nil && prev.set == certSet {
 				// the failed handshake offered prev (its recorded certificates verify under the roots in force, so
 				// the client does offer it): the client must forget it
@@ -285,6 +320,9 @@ func (c10) Run(c *Case, src *vs.Src) *Result {
 		// what was on the wire
 		units := pair.WireUnits(true)
 		offered, srvID, cr, sr := c10Hellos(p.Stack == DTLCP, units)
+		if at, bad := neverOffer[hex.EncodeToString(offered)]; bad && len(offered) > 0 {
+			r.Violate("offered-after-failure", sigp+" session-of-failed-handshake-offered", "%s: the ClientHello carries session id %x, which was issued in the handshake of %s that ended in a fatal error before the server's Finished was verified", tag, offered, at)
+		}
 		if mustNotOffer[op.Server] {
 			if len(offered) > 0 {
 				r.Violate("offered-after-failure", sigp+" session-offered-after-fatal-error", "%s: the ClientHello carries session id %x although the last handshake with that session ended in a fatal error", tag, offered)
